@@ -1,8 +1,12 @@
 package main
 
 import (
+	"bytes"
+	"compress/gzip"
+	"encoding/base64"
 	"encoding/json"
 	"fmt"
+	"io"
 	"os"
 	"path/filepath"
 	"strconv"
@@ -65,6 +69,15 @@ func replayCase(path, modelPath, work string) int {
 		return 0
 	}
 	op := f.Op
+	if f.OpGz != "" {
+		if zb, err := base64.StdEncoding.DecodeString(f.OpGz); err == nil {
+			if zr, err := gzip.NewReader(bytes.NewReader(zb)); err == nil {
+				if full, err := io.ReadAll(zr); err == nil {
+					op = string(full)
+				}
+			}
+		}
+	}
 	if strings.HasPrefix(op, "v2: ") {
 		fmt.Println("the recorded operation ran in the v2 package of a schema pair; replay the pair with ./check C04")
 		return 0
